@@ -97,6 +97,11 @@ CHECKS = {
             "O1-O3 are confirmed over all paths by CrossHair within the stated bounds (counters unbounded, ids < 10^6, strings <= 2-3 chars), which gives the inductive step 'a newly minted name differs from every earlier one' for every creation history in the bound; O4/O5 (constructors use the minted name, no aliasing under subs/diff/solve, printers show display names) are concrete runs and say so.",
             "Trusted: CrossHair's str/int models, z3, SymPy's rule that differently named symbols are different. The 'never affects another' clause is reduced to name distinctness; Symbolic wrappers are outside the property's list.",
             "3.9"),
+    "C19": ("L+X", "other",
+            "z3 over the evaluation flag as a symbolic Bool through the real disable/reset functions along each page's real patch trace (inductive over page orders); CrossHair on _find_law_directives; one concrete generation run for totality/faithfulness/determinism",
+            "Partial. Solver-decided: the flag invariant for every page and every initial value (hence every generation order), well-nestedness of the real patcher's output on every module, directive location on symbolic docstrings. NOT solver-decided (stated): totality, one page per module, placeholder substitution by the module's own renderings, symbol tables and determinism come from one real generate_laws_docs run over the working tree (twice).",
+            "Trusted: z3, CrossHair, the independent expectation of documented members read from the unpatched source. Sphinx build and role resolution are outside.",
+            "3.19"),
 }
 
 NOT_APPLICABLE = {
